@@ -104,3 +104,43 @@ def construct(ns, cls, low, high, rate, num_filts, **kw):
     if cls == 'Fbank':
         return C(num_filts=num_filts, high_hz=high, low_hz=low, sampling_rate=rate, **kw)
     return C(UScale(), num_filts=num_filts, high_hz=high, low_hz=low, sampling_rate=rate, **kw)
+
+
+def handbuilt(ns, cls, **fields):
+    """instance with the given fields set directly (drive the unit, not the program).  It starts from an instance the
+    REAL constructor built with default concrete arguments, so that any further state the constructor sets up (caches,
+    flags added by a refactoring) is present and only the listed fields are overridden."""
+    C = ns[cls]
+    saved_afs = ns['alias_factory_subclass_from_arg']
+    ns['alias_factory_subclass_from_arg'] = lambda family, arg: arg     # components are handed in as instances
+    try:
+        if cls == 'Fbank':
+            b = C(num_filts=1, sampling_rate=8000)
+        elif cls == 'ComplexGammatoneFilterBank':
+            saved = C._calculate_temp_support
+            C._calculate_temp_support = lambda self, idx: (0, 10)
+            try:
+                b = C(ns['MelScaling'](), num_filts=1, sampling_rate=8000)
+            finally:
+                C._calculate_temp_support = saved
+        else:
+            b = C(ns['MelScaling'](), num_filts=1, sampling_rate=8000)
+    except Exception:
+        b = C.__new__(C)
+        b._rate = 8000
+    finally:
+        ns['alias_factory_subclass_from_arg'] = saved_afs
+    for k, v in fields.items():
+        setattr(b, k, v)
+    return b
+
+
+def real_handbuilt(C, **fields):
+    """same for replays on the real library"""
+    try:
+        b = C(num_filts=1, sampling_rate=8000) if C.__name__ == 'Fbank' else C('mel', num_filts=1, sampling_rate=8000)
+    except Exception:
+        b = C.__new__(C)
+    for k, v in fields.items():
+        setattr(b, k, v)
+    return b
